@@ -275,24 +275,63 @@ impl Property for C16 {
     }
 }
 
-/// Where the difficulty of a model lies: `at-limits` if a domain bound is within 1 of i32::MIN /
-/// i32::MAX, `overflowing` if the exact value of the constraint's expression (sum of the terms,
-/// product, ...) leaves the i32 range for some assignment, `interior` otherwise.
+/// Where the difficulty of a model lies: `at-limits` if a domain bound or right-hand side is
+/// within 1 of i32::MIN / i32::MAX; `overflowing` if, for some assignment, an intermediate value
+/// that an implementation may form in exact arithmetic - a term, its negation, a partial or total
+/// sum, a slack (right-hand side minus the other terms), a product, a difference - lies outside
+/// the symmetric range [-(2^31-1), 2^31-1] (i32::MIN itself counts: it cannot be negated);
+/// `interior` otherwise.
 fn classify(model: &Model) -> &'static str {
     let near = |v: i32| (v as i64) <= MIN + 1 || (v as i64) >= MAX - 1;
     let at_limits = model.vars.iter().any(|d| near(d.lb()) || near(d.ub()));
+    let sym = |v: i128| v >= -(MAX as i128) && v <= MAX as i128;
     let mut overflowing = false;
     let c = &model.cons[0];
     model.for_each_assignment(|a| {
-        let val: i128 = match c {
-            Con::LinLe(t, _) | Con::LinEq(t, _) | Con::LinNe(t, _) => t.iter().map(|v| v.eval(a)).sum(),
-            Con::Times(x, y, _) => x.eval(a) * y.eval(a),
-            Con::Plus(x, y, _) => x.eval(a) + y.eval(a),
-            Con::BinLt(x, y) | Con::BinNe(x, y) => x.eval(a) - y.eval(a),
-            Con::Abs(x, _) => x.eval(a).abs(),
-            _ => 0,
-        };
-        if !fits(val) {
+        let mut vals: Vec<i128> = vec![];
+        match c {
+            Con::LinLe(t, r) | Con::LinEq(t, r) | Con::LinNe(t, r) => {
+                let terms: Vec<i128> = t.iter().map(|v| v.eval(a)).collect();
+                let total: i128 = terms.iter().sum();
+                vals.push(total);
+                vals.push(*r as i128 - total);
+                let mut partial = 0i128;
+                for x in &terms {
+                    partial += x;
+                    vals.push(*x);
+                    vals.push(partial);
+                    // slack left for this term, and the sum of the others
+                    vals.push(*r as i128 - (total - x));
+                    vals.push(total - x);
+                }
+            }
+            Con::Times(x, y, z) => {
+                vals.extend([x.eval(a), y.eval(a), z.eval(a), x.eval(a) * y.eval(a)]);
+            }
+            Con::Plus(x, y, z) => {
+                vals.extend([x.eval(a), y.eval(a), z.eval(a), x.eval(a) + y.eval(a), z.eval(a) - x.eval(a), z.eval(a) - y.eval(a)]);
+            }
+            Con::BinLt(x, y) | Con::BinNe(x, y) | Con::BinEq(x, y) | Con::BinLe(x, y) => {
+                vals.extend([x.eval(a), y.eval(a), x.eval(a) - y.eval(a), x.eval(a) - y.eval(a) + 1, x.eval(a) - y.eval(a) - 1]);
+            }
+            Con::Abs(x, y) => vals.extend([x.eval(a), y.eval(a)]),
+            Con::Div(x, y, z) => {
+                // the propagator bounds the numerator by products of denominator and quotient
+                let (n, d, q) = (x.eval(a), y.eval(a), z.eval(a));
+                vals.extend([n, d, q, d * q, d * (q + 1), d * (q - 1)]);
+            }
+            Con::Max(xs, y) | Con::Min(xs, y) => {
+                vals.extend(xs.iter().map(|v| v.eval(a)));
+                vals.push(y.eval(a));
+            }
+            Con::Element { index, array, rhs } => {
+                vals.push(index.eval(a));
+                vals.extend(array.iter().map(|v| v.eval(a)));
+                vals.push(rhs.eval(a));
+            }
+            _ => {}
+        }
+        if vals.iter().any(|v| !sym(*v)) {
             overflowing = true;
         }
     });
